@@ -27,7 +27,7 @@ from ..refmodel import RefOOC, RefReject, RefVal, canon_bag, ref_apply
 RULE = (
     "all ordered pairs (existing, new) over the listed operation shapes (calculations incl. tags hidden by projections, "
     "projections incl. calculated and non-key tags, selections, deduplication, sorts, slices, partial joins with and "
-    "without predicate and on either side) on schema {a,b,c key; n non-key, determined by a}; the real new.commute(existing.apply(leaf)) is called once per "
+    "without predicate and on either side, incl. a partner that shares a NON-join column with the target) on schema {a,b,c key; n non-key, determined by a}; the real new.commute(existing.apply(leaf)) is called once per "
     "pair and the returned UnaryCommutator is interpreted by the reference on ALL row lists of length <= 3 over the "
     "2x2x2 value cube (585 targets, all orders, duplicates) plus two rich lists; non-trivial = the commutator reports a "
     "full or partial move; distinct = distinct pairs"
@@ -84,6 +84,10 @@ OPS = [
     ("join", ("F3",), None, True),
     ("join", ("F4",), ("gt", R("g"), R("a")), False),
     ("join", ("F4",), None, False),
+    # partner sharing the NON-key column n with the targets (n is then not a join column) with other values
+    ("join", ("F5",), None, False),
+    ("join", ("F5",), None, True),
+    ("sel", ("lt", R("n"), L(5))),
 ]
 
 
@@ -95,6 +99,7 @@ def world(rows):
             LeafSpec("F", "e1", ("a", "d"), FIXED_ROWS),
             LeafSpec("F2", "e1", ("a", "c"), FIXED2_ROWS),
             LeafSpec("F3", "e1", ("e", "g"), ((0, 3), (-1, 4), (-1, 5))),
+            LeafSpec("F5", "e1", ("a", "n"), ((0, 7), (1, -7), (1, 10))),
             LeafSpec("F4", "e1", ("g",), ((1,),)),  # exactly one row, shares no column with the targets  # keyed on a column targets only get by calculation
         ),
     )
@@ -206,6 +211,7 @@ def _work(pairs):
         for rows in tgts:
             w = world(rows)
             scen = w.scenario()
+            scen.shadow_ok = True  # commuted == original is judged under the engine's right-operand-wins convention
             t = scen.leaf_val("T")
             try:
                 want = ref_apply(ref_apply(t, ex_ref, scen), nw_ref, scen)
